@@ -117,6 +117,9 @@ type fieldD struct {
 	OptBrk   bool   // options=[a,b] instead of options=a|b
 	FromStr  bool   // the `string` option
 	Shuffle  uint64 // != 0: the options are written in a pseudo-random order derived from it
+	Inherit  bool   // the `inherit` option: an absent value is taken from the nearest enclosing document level that has the key
+	Spaced   bool   // the segments of the tag are written with blanks around them
+	EscComma bool   // commas inside the default= / options=a|b texts are written escaped (\,) in the tag
 }
 
 type structD struct {
@@ -283,8 +286,14 @@ func (f *fieldD) tag() reflect.StructTag {
 	case optNotDep:
 		opts = append(opts, "optional=!"+f.Dep)
 	}
+	esc := func(s string) string {
+		if f.EscComma {
+			return strings.ReplaceAll(s, ",", `\,`)
+		}
+		return s
+	}
 	if f.HasDef {
-		opts = append(opts, "default="+f.Def)
+		opts = append(opts, "default="+esc(f.Def))
 	}
 	if f.Rng != nil {
 		opts = append(opts, "range="+f.Rng.text())
@@ -293,11 +302,14 @@ func (f *fieldD) tag() reflect.StructTag {
 		if f.OptBrk {
 			opts = append(opts, "options=["+strings.Join(f.Options, ",")+"]")
 		} else {
-			opts = append(opts, "options="+strings.Join(f.Options, "|"))
+			opts = append(opts, "options="+esc(strings.Join(f.Options, "|")))
 		}
 	}
 	if f.FromStr {
 		opts = append(opts, "string")
+	}
+	if f.Inherit {
+		opts = append(opts, "inherit")
 	}
 	if f.Shuffle != 0 && len(opts) > 1 {
 		p := make([]string, len(opts))
@@ -307,7 +319,12 @@ func (f *fieldD) tag() reflect.StructTag {
 		opts = p
 	}
 	v := f.Key
-	if len(opts) > 0 {
+	if f.Spaced {
+		v = " " + v + " "
+		if len(opts) > 0 {
+			v += ", " + strings.Join(opts, " , ") + " "
+		}
+	} else if len(opts) > 0 {
 		v += "," + strings.Join(opts, ",")
 	}
 	return reflect.StructTag(f.Src + ":" + strconv.Quote(v))
@@ -395,6 +412,15 @@ func (f *fieldD) shape() string {
 	}
 	if f.FromStr {
 		b.WriteString(",string")
+	}
+	if f.Inherit {
+		b.WriteString(",inherit")
+	}
+	if f.EscComma {
+		b.WriteString(",esc")
+	}
+	if f.Spaced {
+		b.WriteString(",spaced")
 	}
 	return b.String()
 }
